@@ -147,7 +147,12 @@ func (s *Translator) buildPairwiseDirectionlessTraversalPatternRoot(traversalSte
 		}
 	)
 
+	// In a query part that is followed by WITH the frame before this one is the part's own frame, whose
+	// definition this select is part of; the bound endpoints live in the frame before that.
 	previousFrame := traversalStep.Frame.Previous
+	if validFrame, hasValidFrame := s.previousValidFrame(traversalStep.Frame); hasValidFrame {
+		previousFrame = validFrame
+	}
 	pairwiseEdgeConstraint := buildDirectionlessPairwiseEdgeConstraintForRefs(
 		boundEndpointIDReference(previousFrame, traversalStep.LeftNode),
 		boundEndpointIDReference(previousFrame, traversalStep.RightNode),
@@ -155,7 +160,7 @@ func (s *Translator) buildPairwiseDirectionlessTraversalPatternRoot(traversalSte
 	)
 	nextSelect.From = append(nextSelect.From, pgsql.FromClause{
 		Source: pgsql.TableReference{
-			Name: pgsql.CompoundIdentifier{traversalStep.Frame.Previous.Binding.Identifier},
+			Name: pgsql.CompoundIdentifier{previousFrame.Binding.Identifier},
 		},
 		Joins: []pgsql.Join{{
 			Table: pgsql.TableReference{
@@ -176,7 +181,7 @@ func (s *Translator) buildPairwiseDirectionlessTraversalPatternRoot(traversalSte
 
 	// Only apply endpoint inequality when the bound nodes are different, to allow for self-referential relationships
 	if traversalStep.LeftNode.Identifier != traversalStep.RightNode.Identifier {
-		nextSelect.Where = pgsql.OptionalAnd(boundEndpointInequality(traversalStep.Frame.Previous, traversalStep), nextSelect.Where)
+		nextSelect.Where = pgsql.OptionalAnd(boundEndpointInequality(previousFrame, traversalStep), nextSelect.Where)
 	}
 
 	return pgsql.Query{Body: nextSelect}, nil
